@@ -335,6 +335,7 @@ def suites_for(pid, rng, tier):
            without the extracted single-level predicates"""
         for c in cfgs:
             S.append((name, c, "nsim", gen.gen_nest(rng, ks // 2, "y" + c[0], combs=tuple(x for x in ("nest_jj", "nest_mm", "nest_jt", "nest_gj", "nest_gm", "nest_jr", "nest_rj", "nest_cm", "nest_zm", "nest_tt") if x not in skip))))
+            S.append((name + "-long", c, "nsim", gen.gen_nest(rng, kl, "yl" + c[0], long=True, combs=tuple(x for x in ("nest_jj", "nest_mm", "nest_jt", "nest_gj", "nest_gm", "nest_jr", "nest_rj", "nest_cm", "nest_zm", "nest_tt") if x not in skip))))
     if pid == "C01":
         fixed("wake", CFG3, SCAN4 + ["race", "race_ok", "chain"])
         fixed("wake-large", ("std", "alloc"), SCAN4, ks // 4, large=True)
@@ -437,6 +438,7 @@ def suites_for(pid, rng, tier):
     if pid == "C19":
         for c in CFG3:
             S.append(("wait", c, "scan", gen.gen_wait(rng, k, "w" + c[0])))
+            S.append(("wait-long", c, "scan", gen.gen_wait(rng, kl, "wl" + c[0], long=True)))
         return "own", S
     if pid == "C20":
         for c in CFG3:
